@@ -5,11 +5,14 @@
      {"g":"exact","src":dims|null,"dst":dims|null,"tgt":[int…]}     remove_identity_reshapes_ir decision
      {"g":"chain","castlike":bool,"ins":["chain"|"absent"|"scalar"|"other"…]}   _chain_side_inputs_ok
      {"g":"scalar","size":nat|null,"init":bool,"sh":dims|null}      _is_scalar_const_value
+     {"g":"edit","nodes":[[f,[ins…],out]…],"outs":[…],"ops":[["replace",old,new] | ["remove",[out…]]…]}
+         answer: the edited graph as  nodes=<f:ins>out;… outs=…   (onnx_ir replace_all_uses_with / graph.remove)
    dims : list of  nat (literal) | string (symbol) | null (unknown)
 -/
 import Lean.Data.Json
 import J2O.Model.TermJson
 import J2O.Model.C02Guards
+import J2O.Model.GraphEdit
 open Lean (Json)
 open J2O J2O.C02 J2O.TermJson J2O.C02.Guards
 
@@ -26,6 +29,53 @@ def ints? (j : Json) : Option (List Int) :=
   | _ => none
 
 def b2s (b : Bool) : String := if b then "true" else "false"
+
+def nat? (j : Json) : Option Nat :=
+  match j with
+  | .num n => if n.exponent == 0 && n.mantissa ≥ 0 then some n.mantissa.toNat else none
+  | _ => none
+
+def node? (j : Json) : Option GraphEdit.Node :=
+  match j with
+  | .arr a =>
+    match a.toList with
+    | [f, ins, out] => do
+      let f ← nat? f
+      let ins ← natList? ins
+      let out ← nat? out
+      pure ⟨f, ins, out⟩
+    | _ => none
+  | _ => none
+
+def applyOp (g : GraphEdit.Graph) (j : Json) : Option GraphEdit.Graph :=
+  match j with
+  | .arr a =>
+    match a.toList with
+    | [.str "replace", o, n] => do
+      let o ← nat? o
+      let n ← nat? n
+      pure (g.replaceUses o n)
+    | [.str "remove", d] => do
+      let d ← natList? d
+      pure (g.remove d)
+    | _ => none
+  | _ => none
+
+def showGraph (g : GraphEdit.Graph) : String :=
+  let ns := g.nodes.map (fun n => s!"{n.f}:{n.ins}>{n.out}")
+  s!"nodes={";".intercalate ns} outs={g.outs}"
+
+def handleEdit (j : Json) : String :=
+  match j.getObjVal? "nodes", j.getObjVal? "outs", j.getObjVal? "ops" with
+  | .ok (.arr ns), .ok outs, .ok (.arr ops) =>
+    match ns.toList.mapM node?, natList? outs with
+    | some nodes, some outs =>
+      match ops.toList.foldlM applyOp (⟨nodes, outs⟩ : GraphEdit.Graph) with
+      | some g => showGraph g
+      | none => "error:op"
+    | _, _ => "error:graph"
+  | _, _, _ => "error:edit"
+
 
 def handle (line : String) : String :=
   match Json.parse line with
@@ -58,6 +108,7 @@ def handle (line : String) : String :=
         | _ => none
       let init := match j.getObjVal? "init" with | .ok (.bool b) => b | _ => false
       b2s (isScalarConst size init (dims? (j.getObjVal? "sh")))
+    | .ok (.str "edit") => handleEdit j
     | _ => "error:unknown guard"
 
 partial def loop (h : IO.FS.Stream) : IO Unit := do
